@@ -60,7 +60,8 @@ Definition get_dimspecs (s : sx) : option (list dimspec) :=
    sub 7: (coords1d weights1d ((k_1 .. k_d) ...)) -> (points weights (integral per exponent vector))  generic tensor rule
    sub 8: (npwb lo np Ktable Ctable s e) -> (pts wts)   Clenshaw-Curtis closed form, cos values supplied as tables
    sub 9: (fam bnd (a b s e level)) -> (pts wts)   1D rule with the proposed level-0 repair
-   sub 10: (bnd a b s e level) -> (np npwb lo up slice_length)   Leja counts with the proposed repair *)
+   sub 10: (bnd a b s e level) -> (np npwb lo up slice_length)   Leja counts with the proposed repair
+   sub 11: (xs ws tol) -> (leja_system_ok residuals)   the linear system LejaGrid1D.compute_1D_quad_weights solves, on [0,1] *)
 Definition entry_C08_round2 (sub : Z) (a : sx) : sx :=
   match sub, a with
   | 4, Lv [Zv kind; nrm; s; e; rc; rw] =>
@@ -110,6 +111,11 @@ Definition entry_C08_round2 (sub : Z) (a : sx) : sx :=
     match eqfam_of fam, get_bool bnd, get_dim1 d with
     | Some f, Some b, Some x => Lv [of_LQc (eq_points_fx f b x); of_LQc (eq_weights_fx f b x)]
     | _, _, _ => sx_err 9
+    end
+  | 11, Lv [xs; ws; tol] =>
+    match get_LQc xs, get_LQc ws, get_Qc tol with
+    | Some xs, Some ws, Some tol => Lv [ sx_bool (leja_system_ok xs ws tol); of_LQc (leja_system_residuals xs ws) ]
+    | _, _, _ => sx_err 11
     end
   | 10, Lv [bnd; a; b; s; e; Zv l] =>
     match get_bool bnd, get_Qc a, get_Qc b, get_Qc s, get_Qc e with
